@@ -80,7 +80,10 @@ Seqs(s) == [l \in Lists |-> Fwd(s, l)]
 AllMembers(s) == UNION {SeqSet(Fwd(s, l)) : l \in Lists}
 
 Clear(s, l) == [s |-> [s EXCEPT !.hn[l] = 0, !.t[l] = -l, !.count[l] = 0], ev |-> Fwd(s, l)]
-Cut(w, stop) == IF stop > 0 /\ stop <= Len(w) THEN [w |-> SubSeq(w, 1, stop), ret |-> 100 + stop]
+\* what the driver's visit function returns at its stop-th call: any non-zero value must stop the walk and
+\* come back unchanged, so the values vary in sign and size (engine.h e_stopval)
+StopVal(k) == CASE k % 3 = 1 -> 100 + k [] k % 3 = 2 -> 0 - (100 + k) [] OTHER -> IF k % 2 = 1 THEN 1 ELSE 0 - 1
+Cut(w, stop) == IF stop > 0 /\ stop <= Len(w) THEN [w |-> SubSeq(w, 1, stop), ret |-> StopVal(stop)]
                 ELSE [w |-> w, ret |-> 0]
 Foreach(s, l, stop) == LET c == Cut(Fwd(s, l), stop) IN [ev |-> c.w, ret |-> c.ret]
 
